@@ -40,11 +40,13 @@
 (*  A4 FreezeThaw.  freeze(i) answers true iff segment i exists and was    *)
 (*     Thawed, and leaves it Frozen; thaw(i) dually; neither changes any   *)
 (*     other state (so they are idempotent, and thaw undoes freeze).       *)
-(*  A5 Limit.  allocate creates segment number segment_count() and only    *)
-(*     while that is below min(max_segments, 1023); it fails (an error     *)
+(*  A5 Limit.  allocate creates segment number segment_count() (or a gap   *)
+(*     index) and only below min(max_segments, 1023); it fails (an error   *)
 (*     value - no panic, no wrap-around, no file created, no state change) *)
 (*     exactly when no Thawed segment has `size` bytes left behind its     *)
-(*     highest used byte and no segment can be created.                    *)
+(*     highest used byte and no segment can be created (limit reached,     *)
+(*     size above SegSize - Hdr, or the file of the segment to create is   *)
+(*     already there - see A6).                                            *)
 (*  A6 Files.  allocate never deletes, shortens or replaces a data file    *)
 (*     and touches no file but the one of the segment it allocates in.     *)
 (*  A7 Reload.  After load_existing, segment_count() = highest data file   *)
